@@ -178,9 +178,13 @@ CHECKS = {
         "changes only with 201/204; no response body carries a user entry, password, hash or key (C17_no_secrets); Update*/Set*/Delete* leave everything they do not "
         "address alone (C17_preserve_*); regenerated source fact: every call into group./token./stats. in api.go is dominated by checkAdmin (C17_auth_dominates). Tied "
         "to the code on every run by the complete table endpoint shape × method × credential class and random update sequences against the real handler, with an "
-        "independent oracle on status, file hashes and a scan of every response for every secret the harness ever stored",
+        "independent oracle on status, file hashes and a scan of every response for every secret the harness ever stored. Groups live in memory: "
+        "GetDescription's cached-description branch is transcribed (getDescriptionLive/addLive) and proved equal to reading the file at every state reachable by "
+        "requests, faulted requests, harness writes and group.Add (C17_live_authorisation; counterexample C17_stale_by_file_name for a freshness test by cached "
+        "file name); op live = group.Add on the real package, 8 scenarios of a live subgroup gaining/losing its own definition x 9 requests x 11 credentials, "
+        "and random live groups in the random part",
    note=TB + "Model abstractions listed in Model/Api.lean (symbolic passwords with the hash-roundtrip assumption, description = length + auto-subgroups + users/wildcard/keys, "
-        "no live groups, legacy op/presenter/other fields not generated); httptest recorder; the harness's own reader of the on-disk JSON. Remarks (not findings): a user "
+        "live groups have no clients; a cached description is keyed by (file, size, mtime) and every version gets a fresh mtime from the harness); httptest recorder; the harness's own reader of the on-disk JSON. Remarks (not findings): a user "
         "whose stored password is empty or of type wildcard can have it changed without credentials; DELETE of a group definition is not subject to writableGroups.",
    technique="Lean 4 proof (router/authorisation/sanitisation/update model) + regenerated source facts + differential check with independent oracle",
    ref="DESIGN.md section 5 C17"),
@@ -191,12 +195,21 @@ CHECKS = {
         "most one writer per (file, tag) wins (C18_exclusive_interleavings); 304 iff current at the HTTP level; regenerated source fact that api.go hands the phase-1 tag "
         "through checkPreconditions into phase 2; generic theorem safeReplace_atomic applied to the strace-captured system calls of rewriteDescriptionFile (shape by "
         "decide). Tied to the code by executing every interleaving of 2 (quick) / 3 (thorough) writers' phases on the real group package, HTTP-level conditional requests, "
-        "a goroutine race through the real handler, and SIGKILL at every system call of a rewrite followed by a re-read",
+        "a goroutine race through the real handler, and SIGKILL at every system call of a rewrite followed by a re-read. READ side: C18_read_consistent — under every "
+        "interleaving of rename-replacements with a reader whose calls have the strace-captured shape (one open, no path-stat after it, fstat on that descriptor; "
+        "side condition C18_read_shape regenerated by decide) tag source and content source are one version (counterexamples for a path-stat after the open); the "
+        "captures are also trace ops, and op readrace runs the interleaving on the real GetDescription (reader stopped by an injected SIGSTOP with the file open, "
+        "file replaced, reader continued). WRITE FAULTS: op freq runs the real handler under RLIMIT_FSIZE 0/1/100 (EFBIG, partial writes) against handleFault "
+        "(500, nothing changed) with an independent oracle (no unparsable file, unacknowledged = unchanged, acknowledged = requested); quiet_keeps_target + "
+        "regenerated C18_fault_shape: four faulted strace captures of rewriteDescriptionFile (FSIZE 0/100, ENOSPC on write, EIO on fsync) contain a failed "
+        "write/fsync and no call that can change the definition file (no rename after the failure)",
    note=TB + "groups.mu's presence is exercised by the race op, not proved; strace; process-kill crash model (the temp file is fsynced, the directory is not: no power-loss "
         "model). Successive versions differ in size or mtime (the harness stamps every written file). Scope remark: .password and .keys are write-only resources without "
-        "tags; a stale If-Match on them is ignored.",
-   technique="Lean 4 proof (etag grammar; CAS invariant over histories and a scheduler machine; generic SafeReplace theorem) + strace/AST-regenerated facts + differential, "
-             "interleaving, crash-injection and race runs",
+        "tags; a stale If-Match on them is ignored. Read side: writers replace only by rename/unlink (a descriptor stays bound to its version); the tag of what is "
+        "read comes from a metadata call made once the file is open (data flow inside readDescription is not visible in a syscall list). Faults are RLIMIT_FSIZE "
+        "and strace error injection; stray temp files are reported, not judged; faulted token-file writes are engine store's (C16).",
+   technique="Lean 4 proof (etag grammar; CAS invariant over histories and a scheduler machine; generic SafeReplace theorem; reader/replacer interleaving model; quiet-run "
+             "invariant) + strace/AST-regenerated facts + differential, interleaving, crash-injection, write-fault-injection, stop-injection and race runs",
    ref="DESIGN.md section 5 C18"),
  "C19": dict(engine="paths",
    text="Lean 4 proofs over models of path.Clean (complete characterisation: the byte loop equals component-level lexical resolution, for every string), "
